@@ -266,8 +266,38 @@ theorem fri_complete (o : FriOptions) {N : Nat} (hfold : o.folding = N) (hsup : 
         { maxPolyDegree := N ^ k * r - 1, domainSize := N ^ k * m, g := g, offset := offset,
           options := o, numPartitions := 1, alphas := alphas }
         (positions.map fun p => polyEval c (N ^ k * r) (offset * g ^ p)) positions
-        (opened.map fun rows => { rows := rows, merkleOk := true }) remainder true = .ok () :=
+        (opened.map fun rows => { rows := rows, merkleOk := true }) remainder true = .ok () ∧
+      opened.length = k :=
   verify_buildProof o hfold hsup m r k hr hmr hb hk g offset hg hoff c hc alphas hα positions hpos
+
+/-- THE SAME THROUGH `DefaultVerifierChannel::new` AND `FriVerifier::new`: the verifier is built
+from the declared degree bound alone — domain size `(max_poly_degree + 1).next_power_of_two()·blowup`
+(after the fix 7510a16; this covers the bound 1, `N^k·r = 2`, which the unfixed code rejected),
+`k + 1` commitments, as many proof layers as commitments minus one, the constructor's
+`DegreeTruncation` check passes — and accepts. -/
+theorem fri_complete_from_bound (o : FriOptions) {N : Nat} (hfold : o.folding = N)
+    (hsup : supportedFolding N = true) (m r k a : Nat) (hr : 0 < r) (hmr : m = r * o.blowup)
+    (hb : 0 < o.blowup) (hpow2 : N ^ k * r = 2 ^ a) (hk : o.numFriLayers (N ^ k * m) = k)
+    (gOf : Nat → K) (offset : K) (hg : IsPrimitiveRoot (gOf (N ^ k * m)) (N ^ k * m)) (hoff : offset ≠ 0)
+    (c : Nat → K) (hc : ∀ j, N ^ k * r ≤ j → c j = 0) (alphas : List K) (hα : alphas.length = k + 1)
+    (positions : List Nat) (hpos : ∀ p ∈ positions, p < N ^ k * m) :
+    ∃ layers remainder opened,
+      buildLayers (fieldOps K) o (gOf (N ^ k * m)) offset alphas
+        ((List.range (N ^ k * m)).map fun p => polyEval c (N ^ k * r) (offset * gOf (N ^ k * m) ^ p)) =
+          some (layers, remainder) ∧
+      buildProofLayers N layers positions (N ^ k * m) = some opened ∧
+      newAndVerify (fieldOps K) o (N ^ k * r - 1) 1 gOf offset alphas
+        (positions.map fun p => polyEval c (N ^ k * r) (offset * gOf (N ^ k * m) ^ p)) positions
+        (opened.map fun rows => { rows := rows, merkleOk := true }) remainder true = .ok () :=
+  newAndVerify_buildProof o hfold hsup m r k a hr hmr hb hpow2 hk gOf offset hg hoff c hc alphas hα
+    positions hpos
+
+/-- the verifier's domain size for a bound `2^a − 1` is `2^a·blowup`, for every `a` (in particular
+`a = 1`, the degree-1 bound) -/
+theorem verifier_domain_size (a blowup : Nat) :
+    nextPow2 (2 ^ a - 1 + 1) * blowup = 2 ^ a * blowup := by
+  have : 2 ^ a - 1 + 1 = 2 ^ a := by have := Nat.two_pow_pos a; omega
+  rw [this, nextPow2_two_pow]
 
 /-- the hypothesis `numFriLayers (N^k·m) = k` of `fri_complete` holds whenever the final domain
 `m` fits the remainder bound and the domain one folding earlier does not -/
@@ -338,6 +368,21 @@ example :
     mapPositionsToIndexes [0, 1, 2, 3, 4, 5, 6, 7] 16 2 4 = some [0, 2, 4, 6, 1, 3, 5, 7] := by
   decide +kernel
 
+/-- THE DEGREE-1 BOUND through `FriVerifier::new` (domain `(1 + 1).next_power_of_two()·4 = 8`):
+evaluations of `1 + 2x` and of the constant `7`, one layer, accepted -/
+def run17new (coeffs : List Nat) (ps : List Nat) : Option (Res Unit) :=
+  let o : FriOptions := { blowup := 4, folding := 2, rmd := 0 }
+  let evals := (List.range 8).map fun p => evalPoly ops17 coeffs (3 * 2 ^ p % 17)
+  (buildLayers ops17 o 2 3 [5, 7] evals).bind fun lr =>
+    (buildProofLayers 2 lr.1 ps 8).map fun opened =>
+      newAndVerify ops17 o 1 1 (fun _ => 2) 3 [5, 7] (ps.map (evals.getD · 0)) ps
+        (opened.map fun rows => { rows := rows, merkleOk := true }) lr.2 true
+
+example :
+    nextPow2 (1 + 1) * 4 = 8 ∧ nextPow2 (0 + 1) * 8 = 8 ∧ nextPow2 (7 + 1) * 2 = 16 ∧
+    run17new [1, 2] [5, 0, 5, 3] = some (.ok ()) ∧ run17new [7] [1, 6] = some (.ok ()) := by
+  decide +kernel
+
 /-- the hypotheses of `fri_complete` are satisfiable: GF(17) = `ZMod 17`, `2` is a primitive 8th
 root of unity, two layers of folding factor 2, query positions with a duplicate -/
 instance : Fact (Nat.Prime 17) := ⟨by norm_num⟩
@@ -358,11 +403,30 @@ example : ∃ layers remainder opened,
         options := { blowup := 2, folding := 2, rmd := 0 }, numPartitions := 1, alphas := [5, 7, 11] }
       ([5, 1, 5].map fun p =>
         polyEval (fun j => if j < 4 then ((j + 1 : Nat) : ZMod 17) else 0) (2 ^ 2 * 1) (3 * 2 ^ p))
-      [5, 1, 5] (opened.map fun rows => { rows := rows, merkleOk := true }) remainder true = .ok () :=
+      [5, 1, 5] (opened.map fun rows => { rows := rows, merkleOk := true }) remainder true = .ok () ∧
+    opened.length = 2 :=
   fri_complete { blowup := 2, folding := 2, rmd := 0 } rfl (by decide) 2 1 2 (by decide) (by decide)
     (by decide) (by decide) (2 : ZMod 17) (3 : ZMod 17) primitiveRoot_two_zmod17 (by decide) _
     (by intro j hj; have : ¬ j < 4 := by simp at hj; omega
         simp only [if_neg this]) [5, 7, 11] (by decide) [5, 1, 5]
     (by decide)
+
+/-- `fri_complete_from_bound` at the degree-1 bound (`N^k·r = 2^1`), blowup 4, over `ZMod 17` -/
+example : ∃ layers remainder opened,
+    buildLayers (fieldOps (ZMod 17)) { blowup := 4, folding := 2, rmd := 0 } 2 3 [5, 7]
+      ((List.range (2 ^ 1 * 4)).map fun p =>
+        polyEval (fun j => if j < 2 then ((j + 1 : Nat) : ZMod 17) else 0) (2 ^ 1 * 1) (3 * 2 ^ p)) =
+        some (layers, remainder) ∧
+    buildProofLayers 2 layers [5, 0, 5] (2 ^ 1 * 4) = some opened ∧
+    newAndVerify (fieldOps (ZMod 17)) { blowup := 4, folding := 2, rmd := 0 } (2 ^ 1 * 1 - 1) 1
+      (fun _ => (2 : ZMod 17)) 3 [5, 7]
+      ([5, 0, 5].map fun p =>
+        polyEval (fun j => if j < 2 then ((j + 1 : Nat) : ZMod 17) else 0) (2 ^ 1 * 1) (3 * 2 ^ p))
+      [5, 0, 5] (opened.map fun rows => { rows := rows, merkleOk := true }) remainder true = .ok () :=
+  fri_complete_from_bound { blowup := 4, folding := 2, rmd := 0 } rfl (by decide) 4 1 1 1 (by decide)
+    (by decide) (by decide) (by decide) (by decide) (fun _ => (2 : ZMod 17)) (3 : ZMod 17)
+    primitiveRoot_two_zmod17 (by decide) _
+    (by intro j hj; have : ¬ j < 2 := by simp at hj; omega
+        simp only [if_neg this]) [5, 7] (by decide) [5, 0, 5] (by decide)
 
 end Wf.Props.C08
